@@ -44,10 +44,10 @@ Print Assumptions C34_refs_in_text_order.
 Definition demo_refs := [ {| cid := 0; cstart := 10; cend := 13; cname := [112;46;99] |};
                           {| cid := 1; cstart := 15; cend := 16; cname := [99] |};
                           {| cid := 2; cstart := 20; cend := 25; cname := [112;46;99] |} ]%N.
-Definition demo_tbl : list (nat * (nat * target)) :=
-  [ (0, (2, {| tfile := 0; tstart := 0%N; tend := 5%N |}));
-    (1, (1, {| tfile := 1; tstart := 3%N; tend := 9%N |}));
-    (2, (0, {| tfile := 0; tstart := 0%N; tend := 5%N |})) ]%nat.
+Definition demo_tbl : list (nat * (nat * option target)) :=
+  [ (0, (2, Some {| tfile := 0; tstart := 0%N; tend := 5%N |}));
+    (1, (1, Some {| tfile := 1; tstart := 3%N; tend := 9%N |}));
+    (2, (0, Some {| tfile := 0; tstart := 0%N; tend := 5%N |})) ]%nat.
 Example C34_refs_nonvacuous :
   match load (table_ans demo_tbl) [demo_refs] with
   | Ok [es] => map e_ref es = [0; 1; 2] /\ map e_end es = [13; 16; 25]%N /\ map e_file es = [0; 1; 0]
